@@ -535,10 +535,10 @@ impl Monitor for C18 {
         let mut v = split_chunks("pin", 0, np, np, 1);
         v.extend(split_chunks("cycles", 0, 9 * 5 * 4, 180, 20));
         let n = match tier {
-            Tier::Quick => 12_000,
-            Tier::Thorough => 60_000,
+            Tier::Quick => 60_000,
+            Tier::Thorough => 400_000,
         };
-        v.extend(split_chunks("trace", seed_offset(seed, "C18t", 60_000), n, 60_000, 150));
+        v.extend(split_chunks("trace", seed_offset(seed, "C18t", 400_000), n, 400_000, 150));
         v
     }
     fn run_case(&self, kind: &str, idx: u64) -> CaseResult {
